@@ -189,7 +189,7 @@ Section HierSpec.
     destruct DA as [D NF].
     unfold hier_propfind, handle_propfind. rewrite D. cbn [bind].
     rewrite (trim_slash_spell ps pt (ok_ps h OK)).
-    destruct dh; cbn [parse_depth depth_asked bind]; try reflexivity;
+    destruct dh; cbn [parse_depth depth_asked bind is_infcase]; try reflexivity;
       apply (hier_backend_spec s rs rt pf _ Ors NF).
   Qed.
 End HierSpec.
